@@ -2,6 +2,7 @@ import Pms.Props.C07
 import Pms.Props.C07Sq
 import Pms.Props.C07Rot
 import Pms.Props.C07Pair
+import Pms.Props.C07Dyn
 
 #print axioms Pms.Sym.C07_translation_disp
 #print axioms Pms.Sym.C07_translation_gr
@@ -40,3 +41,5 @@ import Pms.Props.C07Pair
 #print axioms Pms.Sym.C07_translation_hess
 #print axioms Pms.Sym.C07_relabel_hess
 #print axioms Pms.Sym.C07_translation_dyn
+#print axioms Pms.Sym.C07_image_dyn
+#print axioms Pms.Sym.C07_relabel_dyn
